@@ -48,7 +48,10 @@ func oracleC01(c *CaseValue) *Failure {
 	return nil
 }
 
-func init() { registerReplay("c01", oracleC01) }
+func init() {
+	registerReplay("c01", oracleC01)
+	RapidProps["C01"] = func() []RProp { return rpC01(TypeNames) }
+}
 
 func c01Record(c *CaseValue, ft *Features, label string) {
 	r := Render(c.V, nil)
@@ -93,21 +96,24 @@ func TestC01(t *testing.T) {
 		}
 		Col.MarkExhaustive("every registered key of the 18 pinned discriminator tables (226) with a canonical body")
 	})
-	for _, tn := range MyTypes() {
+	RunProps(t, rpC01(MyTypes()))
+}
+
+func rpC01(types []string) (out []RProp) {
+	for _, tn := range types {
 		tn := tn
-		t.Run(tn, func(t *testing.T) {
-			CheckProp(t, "C01", "c01", tn, func(rt *rapid.T) *CaseValue {
-				pre, _ := genPrelude(rt, tn, false)
-				v, ft := GenValue(rt, tn, DefaultOpts(Canonical))
-				c := &CaseValue{Type: tn, V: v, Pre: pre}
-				if len(pre) > 0 {
-					Col.Class("after-prior-calls", 1)
-				}
-				c01Record(c, ft, "random")
-				return c
-			}, oracleC01)
-		})
+		out = append(out, MkProp("C01", "c01", tn, func(rt *rapid.T) *CaseValue {
+			pre, _ := genPrelude(rt, tn, false)
+			v, ft := GenValue(rt, tn, DefaultOpts(Canonical))
+			c := &CaseValue{Type: tn, V: v, Pre: pre}
+			if len(pre) > 0 {
+				Col.Class("after-prior-calls", 1)
+			}
+			c01Record(c, ft, "random")
+			return c
+		}, oracleC01))
 	}
+	return
 }
 
 // holderOf returns the type whose dynamic part is selected through the table.
